@@ -22,6 +22,10 @@ CLAIMED = {
          'Inductive one-step checks from an arbitrary state satisfying the representation invariant for Ring, Queue and SafeMap (deletion counters symbolic around the 10000 migration threshold), bounded symbolic histories for RollingWindow (symbolic clock, interval-aligned oracle), Set, and the in-memory Cache/keyLru with the real TimingWheel goroutine under the engine scheduler (sleep-set reduced interleavings).',
          'go/ssa translation, gosym, z3; invariants as written in DESIGN Appendix C; cache expiry (timing wheel ticks) is C12; jitter stubbed in the cache harness.',
          'SSA symbolic execution + SMT (z3), stateless DFS over decision vectors + scheduler with sleep sets'),
+ 'C05': ('DESIGN.md §4 C05',
+         'syncx.Limit with capacity and occupancy as solver variables (channel in symbolic-counter mode): one TryBorrow/Return/Borrow from an arbitrary state 0<=c<=n, inductive over histories and interleavings; MaxConnsHandler for every n and every number already inside, inner handler returning or panicking; TimeoutLimit.Borrow(timeout) racing with Returns and the timer, TaskRunner (Schedule/ScheduleImmediately/Wait, panicking tasks) and Pool (Get/Put, maxAge, symbolic clock) under all interleavings of 2-4 goroutines.',
+         'go/ssa translation, gosym, z3; sync.Mutex/Cond/WaitGroup and channels modelled natively by the engine scheduler; capacity 1..2 and at most 3 tasks/users for TaskRunner/Pool/TimeoutLimit; MapReduce worker caps belong to the C10 harness.',
+         'SSA symbolic execution + SMT (z3), channel-as-symbolic-counter induction + scheduler with sleep sets'),
 }
 
 NA = {
